@@ -55,7 +55,8 @@ def dt_tuple(d):
 
 SDATES = [2000060, 2000366, 1999365, 2001059, 2004060, 2019182, 1970001,
           2100059, 1996366, 2023001, 2024366, 2016060]
-TSTEPS = [10000, 3000, 30000, 240000, 1500, 60000, 120000, 100, 1]
+TSTEPS = [10000, 3000, 30000, 240000, 1500, 60000, 120000, 100, 1, 1000000,
+          7440000]
 
 
 def gen_spec(rng, kind=None, maxn=4, via=None):
